@@ -36,7 +36,7 @@ var c07Dims = []struct {
 	Vals []string
 }{
 	{"spec", []string{"null-node", "null-branch", "null-branching", "null-branches", "unknown-target", "unknown-interpreter", "unknown-branchtype", "unknown-patternsyntax", "nonstring-source", "action-on-message-node", "empty-doc", "wrong-typed-nodes", "nodes-null", "no-error-node", "custom-error-node", "bad-json-pattern", "null-guard", "null-action", "null-pattern", "scalar-pattern", "empty-target", "not-compiled", "array-patterns"}},
-	{"state", []string{"nil-bindings", "permanent", "unknown-node", "empty-node-name", "at-error-node"}},
+	{"state", []string{"nil-bindings", "permanent", "unknown-node", "empty-node-name", "at-error-node", "reloaded-after-failure", "in-memory-after-failure"}},
 	{"msg", []string{"null", "scalar", "deep", "none", "string-with-question-mark", "go-typed"}},
 	{"ctl", []string{"nil", "limit-zero", "limit-negative", "breakpoint", "nil-breakpoints-huge-limit"}},
 	{"props", []string{"nil", "nested"}},
@@ -361,6 +361,7 @@ func c07Run(c *vh.Ctx, cs c07Case) (clause, detail string, nontrivial bool) {
 		node = "act"
 	}
 	refBs := M{}
+	refOK0 := true
 	switch cs.State {
 	case "nil-bindings":
 		bs = nil
@@ -373,6 +374,14 @@ func c07Run(c *vh.Ctx, cs c07Case) (clause, detail string, nontrivial bool) {
 		node = ""
 	case "at-error-node":
 		node = "error"
+	case "reloaded-after-failure":
+		// a machine that failed once, was persisted and reloaded (so lastBindings is a plain map), was put back
+		// to work - and may fail again
+		bs = match.Bindings{"error": "earlier failure", "lastNode": "act", "lastBindings": map[string]interface{}{"x": 1.0, "lastBindings": map[string]interface{}{"y": []interface{}{1.0}}}, "actionError": "earlier"}
+		refOK0 = false
+	case "in-memory-after-failure":
+		bs = match.Bindings{"error": "earlier failure", "lastNode": "act", "lastBindings": match.Bindings{"x": 1.0, "lastBindings": match.Bindings{"y": 1.0}}}
+		refOK0 = false
 	}
 	var msg interface{} = M{"go": 1.0}
 	msgs := []interface{}{msg}
@@ -455,7 +464,7 @@ func c07Run(c *vh.Ctx, cs c07Case) (clause, detail string, nontrivial bool) {
 		return "", "", true
 	}
 	// surfaced? compare with the reference where it is defined
-	refOK := cs.Spec == "" || cs.Spec == "unknown-target" || cs.Spec == "empty-target"
+	refOK := refOK0 && (cs.Spec == "" || cs.Spec == "unknown-target" || cs.Spec == "empty-target")
 	if cs.Spec == "array-patterns" || cs.Msg == "go-typed" || cs.Act == "ret-func-in-array" {
 		refOK = false // values outside JSON have no reference semantics: totality (trap) only
 	}
